@@ -934,6 +934,130 @@ func main() {
 			}
 		}
 
+		// ---- receiver reuse: every parser entry point of Signature / Pubkey / Seckey / ID (Deserialize,
+		// SetHexString, UnmarshalJSON) is first given a valid value and then, on the SAME receiver, each malformed
+		// family. A failed parse must return an error and leave an object that does not verify / is not valid /
+		// is zero — parsing is a function of the input only (the model's parse result None = invalid object).
+		{
+			hx2 := func(b []byte) string { return "0x" + hexs(b) }
+			js := func(t string) []byte { return []byte("\"" + t + "\"") }
+			type bad struct {
+				class string
+				b     []byte // byte entry
+				t     string // hex text entry
+			}
+			badsFor := func(h []byte) []bad {
+				oc := cp(h)
+				oc[len(oc)-1] ^= 1
+				big1 := cp(h)
+				copy(big1, bytes.Repeat([]byte{0xff}, 32))
+				return []bad{
+					{"overlong", append(cp(h), 0), hx2(h) + "00"}, {"truncated", cp(h[:len(h)-1]), hx2(h[:len(h)-1])},
+					{"empty", []byte{}, ""}, {"off-curve", oc, hx2(oc)}, {"coordinate>=p", big1, hx2(big1)},
+					{"junk-tail", append(cp(h), 'z', 'z'), hx2(h) + "zz"}, {"odd-nibble", nil, hx2(h) + "0"},
+					{"missing-0x", nil, hexs(h)}, {"only-prefix", nil, "0x"}, {"embedded-junk", nil, hx2(h)[:20] + "zz" + hx2(h)[22:]},
+				}
+			}
+			report := func(typ, entry, class string, gotErr, stillGood bool, detail map[string]interface{}) {
+				res.Count(fmt.Sprintf("reuse:%s.%s:%s:err=%v,still-usable=%v", typ, entry, class, gotErr, stillGood), fmt.Sprintf("%d/reuse/%s/%s/%s", inst, typ, entry, class), true)
+				if !gotErr || stillGood {
+					detail["type"], detail["entry"], detail["malformed"], detail["error_returned"], detail["receiver_still_usable"] = typ, entry, class, gotErr, stillGood
+					viol("C14/parse:receiver-keeps-previous-value:"+typ+"."+entry, "after a FAILED parse into a receiver that held a valid value the receiver is still usable (verifies / is valid / non-zero), or no error was returned", detail)
+				}
+			}
+			// Signature
+			for _, bd := range badsFor(hb) {
+				for _, entry := range []string{"Deserialize", "SetHexString"} {
+					if entry == "Deserialize" && bd.b == nil {
+						continue
+					}
+					var s groupsig.Signature
+					s.Deserialize(cp(hb))
+					var e error
+					if entry == "Deserialize" {
+						e = s.Deserialize(cp(bd.b))
+					} else {
+						e = s.SetHexString(bd.t)
+					}
+					okV := groupsig.VerifySig(*pk, msg, s)
+					report("Signature", entry, bd.class, e != nil, okV || !s.IsNil(), map[string]interface{}{"previous": hexs(hb), "input_bytes": hexs(bd.b), "input_text": bd.t, "verifies_after": okV, "msg": hexs(msg), "pk": hexs(pkb)})
+					if entry == "Deserialize" {
+						o := sobs{Err: e != nil, Nil: s.IsNil(), Valid: s.IsValid(), Ser: s.Serialize(), Ok: okV}
+						cs.Add(fmt.Sprintf("(SigCase %s (CBytes %s) %s)", hx.CoqHex(hb), hx.CoqHex(bd.b), coqObs(o)), map[string]interface{}{"kind": "signature-receiver-reuse", "class": bd.class, "candidate": hexs(bd.b)})
+					} else {
+						cs.Add(fmt.Sprintf("(TextSig %s %s %s %s)", hx.CoqHex(hb), hx.CoqStr(bd.t), hx.CoqBool(e != nil), hx.CoqBool(okV)), map[string]interface{}{"kind": "signature-receiver-reuse-hex", "class": bd.class, "text": bd.t})
+					}
+				}
+			}
+			// Pubkey
+			for _, bd := range badsFor(pkb) {
+				for _, entry := range []string{"Deserialize", "SetHexString", "UnmarshalJSON"} {
+					if entry == "Deserialize" && bd.b == nil {
+						continue
+					}
+					var p groupsig.Pubkey
+					p.Deserialize(cp(pkb))
+					var e error
+					okV, valid := false, false
+					pan := ""
+					func() {
+						defer func() {
+							if r := recover(); r != nil {
+								pan = fmt.Sprint(r)
+							}
+						}()
+						switch entry {
+						case "Deserialize":
+							e = p.Deserialize(cp(bd.b))
+						case "SetHexString":
+							e = p.SetHexString(bd.t)
+						default:
+							e = p.UnmarshalJSON(js(bd.t))
+						}
+						valid = p.IsValid()
+						okV = groupsig.VerifySig(p, msg, sig)
+					}()
+					report("Pubkey", entry, bd.class, e != nil, okV || valid || pan != "", map[string]interface{}{"previous": hexs(pkb), "input_bytes": hexs(bd.b), "input_text": bd.t, "verifies_after": okV, "is_valid_after": valid, "panic": pan, "msg": hexs(msg)})
+					if pan == "" {
+						if entry == "Deserialize" {
+							cs.Add(fmt.Sprintf("(PkReuse %s (CBytes %s) %s %s)", hx.CoqHex(pkb), hx.CoqHex(bd.b), hx.CoqBool(e != nil), hx.CoqBool(okV)), map[string]interface{}{"kind": "pubkey-receiver-reuse", "class": bd.class, "candidate": hexs(bd.b)})
+						} else if entry == "SetHexString" {
+							cs.Add(fmt.Sprintf("(TextPk %s %s %s %s)", hx.CoqHex(pkb), hx.CoqStr(bd.t), hx.CoqBool(e != nil), hx.CoqBool(okV)), map[string]interface{}{"kind": "pubkey-receiver-reuse-hex", "class": bd.class, "text": bd.t})
+						}
+					}
+				}
+			}
+			// short JSON data for Pubkey / ID
+			for _, d := range [][]byte{{}, []byte("\""), []byte("x")} {
+				var p groupsig.Pubkey
+				p.Deserialize(cp(pkb))
+				e := p.UnmarshalJSON(d)
+				report("Pubkey", "UnmarshalJSON", fmt.Sprintf("json-%d-bytes", len(d)), e != nil, p.IsValid(), map[string]interface{}{"previous": hexs(pkb), "input_text": string(d)})
+				var idj groupsig.ID
+				idj.SetBigInt(big.NewInt(77))
+				e = idj.UnmarshalJSON(d)
+				report("ID", "UnmarshalJSON", fmt.Sprintf("json-%d-bytes", len(d)), e != nil, idj.IsValid(), map[string]interface{}{"previous": "77", "input_text": string(d)})
+			}
+			// Seckey / ID hex setters (their Deserialize = big.Int.SetBytes accepts every byte string)
+			for _, t := range []struct{ class, text string }{{"junk-tail", "0x1234zz"}, {"missing-0x", "1234"}, {"only-prefix", "0x"}, {"empty", ""}, {"sign", "0x-12"}, {"space", "0x12 34"}} {
+				var sc groupsig.Seckey
+				sc.SetHexString("0x" + skv.Text(16))
+				e := sc.SetHexString(t.text)
+				report("Seckey", "SetHexString", t.class, e != nil, sc.IsValid(), map[string]interface{}{"previous": skv.String(), "input_text": t.text, "value_after": sc.GetBigInt().String()})
+				cs.Add(fmt.Sprintf("(TextScalar %s %s %s)", hx.CoqStr(t.text), hx.CoqBool(e != nil), zs(sc.GetBigInt())), map[string]interface{}{"kind": "seckey-receiver-reuse-hex", "text": t.text})
+				for _, entry := range []string{"SetHexString", "UnmarshalJSON"} {
+					var idr groupsig.ID
+					idr.SetBigInt(big.NewInt(99))
+					if entry == "SetHexString" {
+						e = idr.SetHexString(t.text)
+					} else {
+						e = idr.UnmarshalJSON(js(t.text))
+					}
+					report("ID", entry, t.class, e != nil, idr.IsValid(), map[string]interface{}{"previous": "99", "input_text": t.text, "value_after": idr.GetBigInt().String()})
+				}
+			}
+		}
+
 		// ---- mixed representations: the same group element as a freshly computed (Jacobian) value, as another
 		// Jacobian value reached differently, after MakeAffine (Marshal was called on it), and parsed from bytes
 		// (affine). Sums, doublings, opposite points, key aggregation and the pairing must not depend on it.
@@ -1265,6 +1389,15 @@ func main() {
 			skvals := make([]*big.Int, nm)
 			for i := 0; i < nm; i++ {
 				skvals[i] = randScalar(rng)
+				for dup := true; dup; { // distinct members (equal keys would share one id)
+					dup = false
+					for j := 0; j < i; j++ {
+						if skvals[j].Cmp(skvals[i]) == 0 {
+							dup = true
+							skvals[i] = randScalar(rng)
+						}
+					}
+				}
 				secs[i] = *groupsig.NewSeckeyFromBigInt(new(big.Int).Set(skvals[i]))
 				pubs[i] = *groupsig.GeneratePubkey(secs[i])
 				sigs[i] = groupsig.Sign(secs[i], msg)
@@ -1456,6 +1589,74 @@ func main() {
 			if !nd {
 				viol("C14/pairing:nondegenerate", "e(P, g2) = 1 for P != 0, or e(P,g2)^r != 1", in)
 			}
+		}
+
+		// ---- degenerate pairing arguments: the identity in either slot (however it was produced) pairs to 1, and
+		// bilinearity instances whose SUM is the identity (Q2 = -Q1, P2 = -P1, a + b = 0 mod r)
+		if inst < 3 || thorough {
+			aa := randScalar(rng)
+			nb := new(big.Int).Sub(order, aa)
+			Pr := new(bn256.G1).ScalarMult(H, aa)
+			Qr := new(bn256.G2).ScalarBaseMult(randScalar(rng))
+			gtOne := new(bn256.GT).ScalarMult(bn256.Pair(new(bn256.G1).ScalarBaseMult(big.NewInt(1)), bn256.GetG2Base()), big.NewInt(0))
+			id1 := map[string]*bn256.G1{
+				"0*g1": new(bn256.G1).ScalarBaseMult(big.NewInt(0)), "r*g1": new(bn256.G1).ScalarBaseMult(order), "r*P": new(bn256.G1).ScalarMult(Pr, order),
+				"P+(-P)": new(bn256.G1).Add(Pr, new(bn256.G1).Neg(Pr)), "parsed-zeros": g1(make([]byte, 64)),
+			}
+			id2 := map[string]*bn256.G2{
+				"0*g2": new(bn256.G2).ScalarBaseMult(big.NewInt(0)), "r*g2": new(bn256.G2).ScalarBaseMult(order), "r*Q": new(bn256.G2).ScalarMult(Qr, order),
+				"Q+(-Q)": new(bn256.G2).Add(Qr, new(bn256.G2).Neg(Qr)), "parsed-zeros": g2(make([]byte, 128)),
+			}
+			p1 := map[string]*bn256.G1{"generator": new(bn256.G1).ScalarBaseMult(big.NewInt(1)), "random": Pr}
+			p2 := map[string]*bn256.G2{"generator": bn256.GetG2Base(), "random": Qr}
+			chk := func(name string, f func() bool) {
+				okk, pan := false, ""
+				func() {
+					defer func() {
+						if r := recover(); r != nil {
+							pan = fmt.Sprint(r)
+						}
+					}()
+					okk = f()
+				}()
+				res.Count(fmt.Sprintf("pairing-degenerate:%s:ok=%v", name, okk), fmt.Sprintf("%d/pairdeg/%s", inst, name), true)
+				if !okk {
+					viol("C14/pairing:identity-argument", "the pairing with an identity argument is not 1, or a bilinearity instance whose sum is the identity fails: "+name,
+						map[string]interface{}{"case": name, "a": aa.String(), "H": hexs(H.Marshal()), "Q": hexs(Qr.Marshal()), "panic": pan})
+				}
+			}
+			for n1, O1 := range id1 {
+				for n2, Q2 := range p2 {
+					O1, Q2 := O1, Q2
+					chk("e(O["+n1+"],"+n2+")=1", func() bool { return bn256.PairIsEuqal(bn256.Pair(O1, Q2), gtOne) })
+				}
+			}
+			for n2, O2 := range id2 {
+				for n1, P1 := range p1 {
+					O2, P1 := O2, P1
+					chk("e("+n1+",O["+n2+"])=1", func() bool { return bn256.PairIsEuqal(bn256.Pair(P1, O2), gtOne) })
+				}
+				O2 := O2
+				chk("e(O,O["+n2+"])=1", func() bool { return bn256.PairIsEuqal(bn256.Pair(id1["0*g1"], O2), gtOne) })
+			}
+			chk("e(P,Q)e(P,-Q)=1=e(P,Q+(-Q))", func() bool {
+				prod := new(bn256.GT).Add(bn256.Pair(Pr, Qr), bn256.Pair(Pr, new(bn256.G2).Neg(Qr)))
+				return bn256.PairIsEuqal(prod, gtOne) && bn256.PairIsEuqal(bn256.Pair(Pr, new(bn256.G2).Add(Qr, new(bn256.G2).Neg(Qr))), gtOne)
+			})
+			chk("e(P,Q)e(-P,Q)=1=e(P+(-P),Q)", func() bool {
+				prod := new(bn256.GT).Add(bn256.Pair(Pr, Qr), bn256.Pair(new(bn256.G1).Neg(Pr), Qr))
+				return bn256.PairIsEuqal(prod, gtOne) && bn256.PairIsEuqal(bn256.Pair(new(bn256.G1).Add(Pr, new(bn256.G1).Neg(Pr)), Qr), gtOne)
+			})
+			chk("e(P,aQ)e(P,(r-a)Q)=1=e(P,(a+(r-a))Q)", func() bool {
+				prod := new(bn256.GT).Add(bn256.Pair(Pr, new(bn256.G2).ScalarMult(Qr, aa)), bn256.Pair(Pr, new(bn256.G2).ScalarMult(Qr, nb)))
+				sumQ := new(bn256.G2).Add(new(bn256.G2).ScalarMult(Qr, aa), new(bn256.G2).ScalarMult(Qr, nb))
+				return bn256.PairIsEuqal(prod, gtOne) && bn256.PairIsEuqal(bn256.Pair(Pr, sumQ), gtOne)
+			})
+			chk("e(aH,Q)e((r-a)H,Q)=1=e(aH+(r-a)H,Q)", func() bool {
+				prod := new(bn256.GT).Add(bn256.Pair(Pr, Qr), bn256.Pair(new(bn256.G1).ScalarMult(H, nb), Qr))
+				sumP := new(bn256.G1).Add(Pr, new(bn256.G1).ScalarMult(H, nb))
+				return bn256.PairIsEuqal(prod, gtOne) && bn256.PairIsEuqal(bn256.Pair(sumP, Qr), gtOne)
+			})
 		}
 	}
 
